@@ -37,6 +37,45 @@ def expectedEvaluate :
     ((some l, some a, st, ro), evalProbe l a st ro)
 
 
+/-! ### Probe rows of extractor E4 read back into the model (numbers in 256ths) -/
+
+def q256 (n : Int) : Rat := (n : Rat) / 256
+
+/-- the profile of a `checkProbes` row: the eight numbers, vocabularies {1, 2}, structures {1} -/
+def probeProfile : List Int → Option Profile
+  | [a, b, c, d, e, f, g, h] => some ⟨q256 a, q256 b, q256 c, q256 d, q256 e, q256 f, q256 g, [1, 2], [1], q256 h⟩
+  | _ => none
+
+/-- the fingerprint of a `checkProbes` row (reported deviations are 0) -/
+def probePeptide : List Int × Nat × Nat × Option Int → Option Peptide
+  | ([l, t, c, e], v, s, ca) => some ⟨q256 l, 0, q256 t, 0, q256 c, 0, v, s, q256 e, ca.map q256⟩
+  | _ => none
+
+/-- a `checkProbes` row says what the model's `check` says (number of violations) -/
+def checkRowOk (row : List Int × (List Int × Nat × Nat × Option Int) × Option Nat) : Bool :=
+  match probeProfile row.1, probePeptide row.2.1 with
+  | some pr, some p => row.2.2 == some (check pr p).length
+  | _, _ => false
+
+/-- the fingerprint of a `trainProbes` row -/
+def trainPeptide : List Int → Option Peptide
+  | [l, ls, t, ts, c, cs, e] => some ⟨q256 l, q256 ls, q256 t, q256 ts, q256 c, q256 cs, 1, 1, q256 e, none⟩
+  | _ => none
+
+/-- a `trainProbes` row says what the model's `trainThymus` says: positive, with these eight numbers, every hash of the
+    window accepted and no other -/
+def trainRowOk (row : Nat × Int × List Int × Option (List Int)) : Bool :=
+  match trainPeptide row.2.2.1, row.2.2.2 with
+  | some p, some [a, b, c, d, e, f, g, h] =>
+    match trainThymus ⟨(row.1 : Int), q256 row.2.1, 1 / 2⟩ ⟨0, 0, 0⟩ (List.replicate row.1 p) with
+    | .positive pr =>
+      decide (pr.lenLo = q256 a) && decide (pr.lenHi = q256 b) && decide (pr.timeLo = q256 c) &&
+      decide (pr.timeHi = q256 d) && decide (pr.confLo = q256 e) && decide (pr.confHi = q256 f) &&
+      decide (pr.errMax = q256 g) && decide (pr.canaryMin = q256 h) &&
+      pr.vocabs.all (· == 1) && pr.structs.all (· == 1) && pr.vocabs.contains 1 && pr.structs.contains 1
+    | _ => false
+  | _, _ => false
+
 /-! ### Baseline check -/
 
 def InBaseline (pr : Profile) (p : Peptide) : Prop :=
